@@ -886,9 +886,18 @@ impl Database {
         if_exists: bool,
     ) -> Result<String> {
         use crate::btree::BTree;
+        use crate::database::macros::with_btree_storage;
         use crate::sql::decoder::{RecordDecoder, SimpleDecoder};
 
         const BATCH_SIZE: usize = 10_000;
+
+        if self
+            .shared
+            .wal_enabled
+            .load(std::sync::atomic::Ordering::Acquire)
+        {
+            self.ensure_wal()?;
+        }
 
         let (old_columns, drop_idx, indexes_to_drop) = {
             let catalog_guard = self.shared.catalog.read();
@@ -973,10 +982,15 @@ impl Database {
             let file_manager = file_manager_guard.as_mut().unwrap();
             let storage_arc = file_manager.table_data_mut(schema_name, table_name)?;
             let mut storage = storage_arc.write();
-            let root_page = {
+            let (table_id, mut root_page) = {
                 let page = storage.page(0)?;
-                TableFileHeader::from_bytes(page)?.root_page()
+                let header = TableFileHeader::from_bytes(page)?;
+                (header.table_id() as u32, header.root_page())
             };
+            let wal_enabled = self
+                .shared
+                .wal_enabled
+                .load(std::sync::atomic::Ordering::Acquire);
 
             // Rows already marked deleted are not migrated (re-wrapping them would clear the
             // DELETE_BIT and bring them back); their entries are removed instead.
@@ -997,10 +1011,19 @@ impl Database {
             };
 
             if !dead_keys.is_empty() {
-                let mut btree_mut = BTree::new(&mut *storage, root_page)?;
-                for key in &dead_keys {
-                    btree_mut.delete(key)?;
-                }
+                with_btree_storage!(
+                    wal_enabled,
+                    &mut *storage,
+                    &self.shared.dirty_tracker,
+                    table_id,
+                    root_page,
+                    |btree_mut: &mut BTree<_>| {
+                        for key in &dead_keys {
+                            btree_mut.delete(key)?;
+                        }
+                        Ok::<_, eyre::Report>(())
+                    }
+                );
             }
 
             for chunk in all_keys.chunks(BATCH_SIZE) {
@@ -1032,16 +1055,37 @@ impl Database {
                     }
                 }
 
-                let mut btree_mut = BTree::new(&mut *storage, root_page)?;
-                for (key, _) in &batch {
-                    btree_mut.delete(key)?;
-                }
-                for (key, new_value) in &batch {
-                    btree_mut.insert(key, new_value)?;
+                // The migrated record is never longer than the old one, so it is rewritten in
+                // place; deleting every row and inserting it again went through emptied leaves
+                // and moved the root without recording it (rows left in the old format, table
+                // unreadable). With the WAL on the rewrite is logged like any other statement,
+                // otherwise a later WAL replay restores old-format pages under the new catalog.
+                let new_root = with_btree_storage!(
+                    wal_enabled,
+                    &mut *storage,
+                    &self.shared.dirty_tracker,
+                    table_id,
+                    root_page,
+                    |btree_mut: &mut BTree<_>| {
+                        for (key, new_value) in &batch {
+                            if !btree_mut.update(key, new_value)? {
+                                btree_mut.delete(key)?;
+                                btree_mut.insert(key, new_value)?;
+                            }
+                        }
+                        Ok::<_, eyre::Report>(())
+                    }
+                );
+                if new_root != root_page {
+                    let page = storage.page_mut(0)?;
+                    TableFileHeader::from_bytes_mut(page)?.set_root_page(new_root);
+                    root_page = new_root;
                 }
             }
 
             storage.sync()?;
+            drop(storage);
+            self.flush_wal_if_autocommit(file_manager, schema_name, table_name, table_id)?;
         }
 
         {
